@@ -30,13 +30,27 @@ CandT(A, rec) ==
              /\ A.queue[i].t = A.queue[1].t}
 
 LoggedProp(rec) == KM(rec.prop[1].prop)
-SuccsT(A, i, rec) ==
+(* processing order of the proposed entries, read off the logged successor: *)
+(* the tasks handed to the cluster appear as new URGENT TP entries in queue   *)
+(* order; the entries that were skipped (or raised) follow                    *)
+NewTPSeq(A, B, o) ==
+    LET idx == {i \in 1..Len(B.queue) : B.queue[i].pid[1] = "TP" /\ B.queue[i].pid[2] = o
+                                        /\ B.queue[i].pid \notin DOMAIN A.procs}
+        srt == SetToSortSeq(idx, <)
+    IN [j \in 1..Len(srt) |-> B.queue[srt[j]].pid[3]]
+LoggedOrders(A, B, o, prop) ==
+    LET win == NewTPSeq(A, B, o)
+        rest == DOMAIN prop \ SeqToSet(win)
+    IN IF SeqToSet(win) \subseteq DOMAIN prop
+       THEN {win \o r : r \in (IF Cardinality(rest) <= 4 THEN SetToSeqs(rest) ELSE {SetToSeq(rest)})}
+       ELSE Orders(o, DOMAIN prop)
+SuccsT(A, B, i, rec) ==
     LET pid == A.queue[i].pid
         P == Pop(A, i)
     IN IF pid[1] = "AT" /\ Len(rec.prop) = 1 /\ P.procs[pid].ph # "done"
        THEN LET prop == LoggedProp(rec)
             IN {ATStep(P, pid, pv, prop, ord, FALSE) :
-                  pv \in ProvOptions(P, pid[2]), ord \in Orders(pid[2], DOMAIN prop)}
+                  pv \in ProvOptions(P, pid[2]), ord \in LoggedOrders(A, B, pid[2], prop)}
        ELSE Succs(A, i)
 
 (* is the logged proposal one the policy's contract allows? *)
@@ -48,7 +62,7 @@ ProposalOK(A, i, rec) ==
        THEN LET S0 == P
                 rem == Remaining(P, o)
             IN \E pv \in ProvOptions(P, o) :
-                 LoggedProp(rec) \in Proposals(ApplyProv(P, o, pv), o, rem, pv, P.procs[pid])
+                 ProposalValid(ApplyProv(P, o, pv), o, rem, pv, P.procs[pid], LoggedProp(rec))
        ELSE TRUE
 
 (* harness set-up of the buffer histories: a fully ingested observation is  *)
@@ -71,6 +85,8 @@ CallOutcomes(A, c) ==
       [] c.op = "Alloc" -> SpawnTPOutcomes(A, <<c.o, c.k>>, c.m)
       [] c.op = "StoreHot" -> StoreOutcomes(A, c.o, TRUE)
       [] c.op = "StoreCold" -> StoreOutcomes(A, c.o, FALSE)
+      [] c.op = "StartIngest" ->
+            {Out(Spawn([A EXCEPT !.obs[c.o].status = "RUNNING", !.obs[c.o].ast = A.now], StPid(c.o), Loc0), "")}
       [] c.op = "H2C" -> {Out(Spawn([A EXCEPT !.nmove = @ + 1], H2cPid(A.nmove + 1), Loc0), "")}
       [] c.op = "C2H" -> {Out(Spawn([A EXCEPT !.nmove = @ + 1], C2hPid(A.nmove + 1), Loc0), "")}
       [] OTHER -> {}
@@ -89,7 +105,7 @@ StepOK(A, B, rec) ==
     THEN A.queue # <<>> /\ NoStop(A.queue)[1].pid[1] = "CRASH"
          /\ \E i \in 1..Len(A.queue) : A.queue[i].pid[1] = "CRASH"
                 /\ MatchS([Pop(A, i) EXCEPT !.crashed = A.queue[i].pid[2]], B)
-    ELSE \E i \in CandT(A, rec) : \E T \in SuccsT(A, i, rec) : MatchS(T, B)
+    ELSE \E i \in CandT(A, rec) : \E T \in SuccsT(A, B, i, rec) : MatchS(T, B)
 
 (* diagnosis: fields in which the best candidate differs *)
 Diff(A, B, rec) ==
@@ -100,7 +116,7 @@ Diff(A, B, rec) ==
     ELSE IF rec.lab.kind = "STOP" THEN {f \in DOMAIN Norm(B) : Norm([A EXCEPT !.now = B.now])[f] # Norm(B)[f]}
     ELSE IF rec.lab.kind \in {"END", "STOPR"} \/ CandT(A, rec) = {} THEN {"no-candidate"}
     ELSE LET i == CHOOSE i \in CandT(A, rec) : TRUE
-             Ts == SuccsT(A, i, rec)
+             Ts == SuccsT(A, B, i, rec)
          IN IF Ts = {} THEN {"no-successor"}
             ELSE LET T == CHOOSE T \in Ts : \A U \in Ts :
                             Cardinality({f \in DOMAIN Norm(T) : Norm(T)[f] # Norm(B)[f]})
